@@ -111,6 +111,12 @@ func Choose(name string, n int) int {
 	return int(v)
 }
 
+// And, Or, And3, Ite: non-short-circuit boolean helpers (no branch in the harness).
+func And(a, b bool) bool     { return a && b }
+func Or(a, b bool) bool      { return a || b }
+func And3(a, b, c bool) bool { return a && b && c }
+func Implies(a, b bool) bool { return !a || b }
+
 // Split case-splits on the value of x (symbolically); identity natively.
 func Split(x int) int { return x }
 
